@@ -120,20 +120,31 @@ class PolyEval(Evaluator):
 
     def call(self, n):
         f = n.func
-        if isinstance(f, ast.Attribute) and isinstance(f.value, ast.Name) and f.value.id == "self" and not n.args and not n.keywords \
-                and self.methods and f.attr in self.methods and getattr(self, "_depth", 0) < 2:
-            # self._helper(): evaluate its body; a lazy fill `if self._x is None: self._x = ...` is taken (the value a
+        if isinstance(f, ast.Attribute) and isinstance(f.value, ast.Name) and f.value.id == "self" and not n.keywords \
+                and self.methods and f.attr in self.methods and getattr(self, "_depth", 0) < 3:
+            # self._helper(args): evaluate its body; a lazy fill `if self._x is None: self._x = ...` is taken (the value a
             # coherent cache holds is the one the fill computes)
-            self._depth = getattr(self, "_depth", 0) + 1
-            try:
-                return self._inline(self.methods[f.attr])
-            finally:
-                self._depth -= 1
+            fdef = self.methods[f.attr]
+            params = [a.arg for a in fdef.args.args][1:]
+            if len(params) == len(n.args):
+                argv = [self.ev(a) for a in n.args]
+                self._depth = getattr(self, "_depth", 0) + 1
+                try:
+                    return self._inline(fdef, dict(zip(params, argv)))
+                except NotInFragment:
+                    # the helper leaves the fragment: is its result a rotation matrix (abstract interpreter, tag 'orth')?
+                    if not n.args and self.is_rotation is not None and self.is_rotation(f.attr):
+                        return SV("rot")
+                    raise
+                finally:
+                    self._depth -= 1
         return super().call(n)
 
-    def _inline(self, fdef):
+    is_rotation = None       # callable(method name) -> bool, supplied by evaluate()
+
+    def _inline(self, fdef, bound=None):
         saved_env, saved_names = self.env, self.result_names
-        self.env, self.result_names = {}, set()
+        self.env, self.result_names = dict(bound or {}), set()
         try:
             for s in fdef.body:
                 if isinstance(s, ast.Expr) and isinstance(s.value, ast.Constant):
@@ -172,15 +183,29 @@ class PolyEval(Evaluator):
         return out
 
 
-def evaluate(fn, extra_env=None, extra_attr=None):
+def evaluate(fn, extra_env=None, extra_attr=None, index=None):
     attr = base_env()
     attr.update(extra_attr or {})
     ev = PolyEval(attr, extra_env)
     if fn.cls is not None:
         ev.methods = {}
+        infos = {}
         for c in reversed(fn.cls.mro):
             for name, m in c.methods.items():
                 ev.methods[name] = m.node
+                infos[name] = m
+        if index is not None:
+            def _is_rot(name, _cache={}):
+                if name not in _cache:
+                    from .interp import Interp
+                    try:
+                        r = Interp(index).run_entry(infos[name], fn.cls)
+                        v = r["result"]
+                        _cache[name] = v is not None and "orth" in v.tags
+                    except Exception:
+                        _cache[name] = False
+                return _cache[name]
+            ev.is_rotation = _is_rot
     ev.result_names = {n.value.id for n in ast.walk(fn.node) if isinstance(n, ast.Return) and isinstance(n.value, ast.Name)}
     body = [s for s in fn.node.body if not (isinstance(s, ast.Expr) and isinstance(s.value, ast.Constant))]
     ret = ev.run(body)
